@@ -227,7 +227,8 @@ pub enum Op {
     Set { e: usize, s: Setter },
     SetW { e: usize, which: Which, w: Vec<f64> },
     /// C19: VoiceSet::new(voices) where voice `mutate.0` has metadata field `mutate.1` changed
-    VsNew { voices: Vec<VoiceRef>, mutate: Option<(usize, MetaField)> },
+    /// `mutate.2` selects how the field is changed (0 grow/append/flip, 1 shrink/remove, 2 alter in place)
+    VsNew { voices: Vec<VoiceRef>, mutate: Option<(usize, MetaField, u8)> },
     Synth { e: usize, utt: Utt, form: Form },
     /// a *failing* call: label text that is not well-formed
     SynthBad { e: usize, utt: Utt, bad_at: usize, bad_kind: u8 },
@@ -279,7 +280,7 @@ impl TOp {
                 t,
                 match mutate {
                     None => "none".to_string(),
-                    Some((p, f)) => format!("{}/{}", p, f.to_text()),
+                    Some((p, f, v)) => format!("{}/{}/{}", p, f.to_text(), v),
                 },
                 vrefs(voices)
             ),
@@ -314,8 +315,11 @@ impl TOp {
                 let mutate = if m == "none" {
                     None
                 } else {
-                    let (p, f) = m.split_once('/')?;
-                    Some((p.parse().ok()?, MetaField::from_text(f)?))
+                    let mut it = m.split('/');
+                    let p = it.next()?;
+                    let f = it.next()?;
+                    let v = it.next().and_then(|x| x.parse().ok()).unwrap_or(0u8);
+                    Some((p.parse().ok()?, MetaField::from_text(f)?, v))
                 };
                 Op::VsNew { voices: parse_vrefs(w.get(3)?)?, mutate }
             }
